@@ -19,7 +19,7 @@ for h in ("h_varint32", "h_varint64", "h_varint_decode_any", "h_fixed"):
         replay="c16")
 
 # ---------------------------------------------------------------- C19 open arbitrary bytes
-add("c19_reader_open", ["C19"], ["tu/reader_open.c", "$REPO/mtbl/metadata.c", "$REPO/mtbl/varint.c", "$REPO/mtbl/fixed.c",
+add("c19_reader_open", ["C19", "C18"], ["tu/reader_open.c", "$REPO/mtbl/metadata.c", "$REPO/mtbl/varint.c", "$REPO/mtbl/fixed.c",
     "$REPO/mtbl/source.c", "$REPO/mtbl/iter.c"], "h_reader_open",
     unwind=12, object_bits=10, safety="P", strength="U", timeout=900, slice=100, replay="c19",
     functions=["mtbl_reader_init", "mtbl_reader_init_fd", "reader_init_madvise", "metadata_read", "mtbl_varint_decode64",
@@ -124,7 +124,7 @@ add("blk_decode_entry", ["C11", "C01"], ["tu/blk_step.c", "$REPO/mtbl/varint.c",
 MG_FUNCS = ["merger_iter_next", "merger_iter_seek", "entry_fill", "_mtbl_merger_compare", "heap_peek", "heap_pop", "heap_replace", "heap_add", "heap_heapify", "heap_clip",
             "siftdown", "siftup", "bytes_compare", "ubuf_*"]
 MG_ASSUME = ["sources: 2 user-defined iterators over symbolic strictly increasing arrays of <= 2 entries, keys of 0 or 1 byte (empty key included), buffers overwritten on every call",
-             "arbitrary merger-iterator state satisfying invariant M (heap = next unconsumed entry of every live source, any valid heap arrangement; remembered key separates consumed from unconsumed entries) => every history of next/seek",
+             "arbitrary merger-iterator state satisfying invariant M (heap = next unconsumed entry of every live source, any valid heap arrangement; every entry passed over is <= the remembered key) => every history of next/seek, states after backward seeks included",
              "mtbl/iter.c's dispatchers (mtbl_iter_next/seek/destroy) modelled directly by the source iterators", "merge function = arbitrary results of length 0..2 checking the fold discipline (values identify their entry); no-merge mode with and without a dupsort function (arbitrary total preorder on values)"]
 MG_SRC = ["tu/merger_step.c"]
 MG_UW = {"siftdown.0": 2, "siftup.0": 2, "merger_iter_next.0": 4, "merger_iter_next.1": 6, "heap_heapify.0": 2, "ubuf_reserve.0": 2, "entry_vec_add.0": 2,
@@ -195,11 +195,11 @@ for ne in (0, 1):
 add("so_destroy_step", ["C18"], SO_SRC, "h_sorter_destroy_step", unwind=6, timeout=600, safety="P",
     strength="B: mtbl_sorter_destroy with <= 2 buffered entries, <= 2 readers, possibly one chunk job still in flight", functions=SO_FUNCS, assumptions=SO_ASSUME, replay="c18")
 # ---------------------------------------------------------------- libmy/my_fileset.c reload (bounded)
-for nm, nl, tier in (("myfs_reload_step", 2, "quick"), ("myfs_reload_step3", 3, "thorough")):
-    add(nm, ["C07", "C18"], ["tu/myfs_step.c"], "h_myfs_reload_step", unwind=10, timeout=1800, slice=4, tier=tier, defines=[f"VG_MYFS_LINES={nl}"],
-        strength=f"B: my_fileset_reload from an arbitrary loaded set of <= 2 of 3 one-letter tables, setfile of <= {nl} distinct lines, each table present or missing; the new set grows through the real vector code",
-        functions=["my_fileset_reload", "setfile_updated", "fetch_entry", "cmp_fileset_entry", "path_exists", "my_fileset_get", "ubuf_add_cstr", "ubuf_rstrip", "ubuf_cstr", "entry_vec_add (growth)"],
-        assumptions=["stat / fopen / getline / fclose / dirname modelled (POSIX); bsearch and qsort modelled by their contracts over the caller's comparator; realloc by its ISO C contract", "names are one letter in directory d; setfile changes are detected by inode/mtime (as the code does); duplicate setfile lines are outside the bound"])
+for nm, nl, tier, cut in (("myfs_reload_step", 2, "quick", True), ("myfs_reload_grow2", 2, "thorough", False), ("myfs_reload_grow3", 3, "thorough", False)):
+    add(nm, ["C07", "C18"], ["tu/myfs_step.c"], "h_myfs_reload_step", unwind=10, timeout=900 if cut else 6000, slice=4, tier=tier, defines=[f"VG_MYFS_LINES={nl}"] + (["VG_MYFS_CUT"] if cut else []),
+        strength=f"B: my_fileset_reload from an arbitrary loaded set of <= 2 of 3 one-letter tables, setfile of <= {nl} distinct lines, each table present or missing; " + ("resulting set of at most ONE entry (vector growth is a cut point)" if cut else "the new set grows through the real vector code (realloc by its ISO C contract)"),
+        functions=["my_fileset_reload", "setfile_updated", "fetch_entry", "cmp_fileset_entry", "path_exists", "my_fileset_get", "ubuf_add_cstr", "ubuf_rstrip", "ubuf_cstr"] + ([] if cut else ["entry_vec_add (growth)"]),
+        assumptions=["stat / fopen / getline / fclose / dirname modelled (POSIX); bsearch and qsort modelled by their contracts over the caller's comparator", "names are one letter in directory d; setfile changes are detected by inode/mtime (as the code does); duplicate setfile lines are outside the bound"])
 # ---------------------------------------------------------------- mtbl_verify sweep
 add("vf_sweep", ["C12", "C18"], ["tu/verify_step.c", "$REPO/mtbl/varint.c", "$REPO/mtbl/fixed.c"], "h_verify_sweep", unwind=12, timeout=600,
     strength="B: verify_data_blocks over a symbolic file of 1..3 data blocks (6-byte payloads), v1/v2 framing, any subset of blocks damaged; trailer counts true",
@@ -276,7 +276,7 @@ add("wr_session", ["C10", "C01", "C09", "C08", "C18"], ["tu/writer_session.c", "
 add("bb_add_dfcc", ["C09", "C01", "C11"], ["tu/bb_add_dfcc.c"], "h_bb_add_dfcc", mode="dfcc", enforce="block_builder_add/block_builder_add__spec",
     replace=["uint64_vec_add/uint64_vec_add__cap", "ubuf_reserve/ubuf_reserve__cap", "ubuf_advance/ubuf_advance__cap", "mtbl_varint_encode32/mtbl_varint_encode32__cap", "memcpy/memcpy__cap",
              "ubuf_reset/ubuf_reset__cap", "ubuf_append/ubuf_append__cap"],
-    loops="loops/bb_add.json", unwind=8, timeout=900, strength="U", functions=["block_builder_add"],
+    loops="loops/bb_add.json", unwind=16, timeout=900, slice=1, strength="U", functions=["block_builder_add"],
     assumptions=["vector operations (reserve / advance / reset / append / add), mtbl_varint_encode32 and memcpy replaced by capture contracts (their own checks: vec_step, c16_*, ISO C); key and value lengths <= UINT32_MAX (the header numbers are 32-bit varints)",
                  "byte-level layout of the encoded entry is the bounded obligation of bb_add_step (real decoder)"])
 add("vf_file", ["C12", "C18"], ["tu/verify_step.c", "$REPO/mtbl/varint.c", "$REPO/mtbl/fixed.c"], "h_verify_file", unwind=12, timeout=600,
